@@ -68,3 +68,6 @@ func TestRules(t *testing.T) {
 }
 
 func TestC07(t *testing.T) { runMachine(t, CfgC07) }
+
+func TestC09(t *testing.T) { runMachine(t, CfgC09) }
+func TestC10(t *testing.T) { runMachine(t, CfgC10) }
